@@ -89,64 +89,7 @@ func runC03(c *Ctx) {
 	}
 
 	r2 := c.Rule("R2", "reads resolve through the registry handle's active id; MRU shortcut only before commit time; L1 hit requires an equal version", 7)
-	{
-		f := w.Fn("common.nodeRepositoryBackend.get")
-		g := w.G(f)
-		c.Analysed(f)
-		info := f.Pkg.TypesInfo
-		defs := localDefs(f)
-		gets := g.callNodes(kRegGet)
-		ones := g.callNodes(kBlobGetOne)
-		c.Check(len(gets) == 1 && len(ones) == 1, r2, "get: one registry lookup and one blob fetch", f.Decl.Pos(), "Registry.Get / BlobStore.GetOne", fmt.Sprintf("found %d/%d", len(gets), len(ones)), nil)
-		if len(gets) == 1 && len(ones) == 1 {
-			hv := g.lhsVarOfCall(gets[0].n, gets[0].cs, 0)
-			offs := g.MustPrecede(calls(kRegGet), calls(kBlobGetOne, "cache.L1Cache.GetNode"))
-			c.Offences(g, offs, r2, "get: blob / L1 node fetch only after the registry lookup", f.Decl.Pos(), "Registry.Get precedes", "a node can be fetched without consulting the registry handle")
-			idArg := ones[0].cs.Call.Args[len(ones[0].cs.Call.Args)-1]
-			okID := hv != nil && w.mentionsDeep(f, defs, idArg, hv) && w.mentionsDeep(f, defs, idArg, nil, kActive) && !w.mentionsDeep(f, defs, idArg, nil, kInactive)
-			c.Check(okID, r2, "get: the blob fetched is the handle's ACTIVE id", ones[0].cs.Call.Pos(), "GetActiveID() of the registry result", "the blob id does not derive from GetActiveID() of the handle just read (a staged, uncommitted blob could be read)", nil)
-			for _, nc := range g.callNodes("cache.L1Cache.GetNode") {
-				okH := hv != nil && len(nc.cs.Call.Args) >= 2 && mentionsObj(info, nc.cs.Call.Args[1], hv)
-				c.Check(okH, r2, "get: the L1 lookup is keyed by the handle just read", nc.cs.Call.Pos(), "handle from Registry.Get", "L1 node lookup does not use the registry handle", nil)
-			}
-			// version stamped from the handle
-			sv := g.callNodes("btree.MetaDataType.SetVersion")
-			okV := len(sv) >= 1
-			for _, nc := range sv {
-				if hv == nil || !mentionsObj(info, nc.cs.Call.Args[0], hv) || !mentionsObj(info, nc.cs.Call.Args[0], w.Field("sop", "Handle", "Version")) {
-					okV = false
-				}
-			}
-			c.Check(okV, r2, "get: fetched nodes carry the handle's version", f.Decl.Pos(), "SetVersion(handle.Version)", "a fetched node is not stamped with the version of the handle it was resolved through (the commit-time version check compares garbage)", nil)
-		}
-		mru := g.callNodes("cache.L1Cache.GetNodeFromMRU")
-		pd := w.Field("common", "Transaction", "phaseDone")
-		guard := g.condNodes(func(e ast.Expr) bool {
-			be, ok := e.(*ast.BinaryExpr)
-			if !ok || be.Op != token.EQL || fieldOfSelector(info, be.X) != pd {
-				return false
-			}
-			lit, ok := ast.Unparen(be.Y).(*ast.BasicLit)
-			return ok && lit.Value == "0"
-		})
-		c.Check(len(mru) == 1 && len(guard) == 1, r2, "get: MRU shortcut and its phase guard present", f.Decl.Pos(), "one GetNodeFromMRU under `phaseDone == 0`", fmt.Sprintf("found %d shortcut(s), %d guard(s)", len(mru), len(guard)), nil)
-		if len(mru) == 1 && len(guard) == 1 {
-			offs := g.notOnlyVia(guard, 1, func(n *GNode) bool { return n == mru[0].n })
-			c.Offences(g, offs, r2, "get: process-wide MRU shortcut only before commit time", mru[0].cs.Call.Pos(), "reachable only with phaseDone == 0", "during commit a node can be served from the process-wide MRU without re-reading its handle from the registry")
-		}
-		// L1: version-matched hits only
-		fl := w.Fn("cache.L1Cache.getEntryForHandleLocked")
-		gl := w.G(fl)
-		c.Analysed(fl)
-		li := fl.Pkg.TypesInfo
-		ver := gl.condNodes(func(e ast.Expr) bool {
-			be, ok := e.(*ast.BinaryExpr)
-			return ok && be.Op == token.EQL && mentionsObj(li, be, w.Field("cache", "l1CacheEntry", "nodeVersion")) && mentionsObj(li, be, w.Field("sop", "Handle", "Version"))
-		})
-		hit := func(n *GNode) bool { return n.Ret != nil && len(n.Ret.Results) == 2 && isBoolLit(li, n.Ret.Results[1], true) }
-		okL := len(ver) == 1 && len(gl.Find(hit)) >= 1 && len(gl.notOnlyVia(ver, 1, hit)) == 0 && w.mentionsCall(fl, fl.Body, kActive)
-		c.Check(okL, r2, "L1 cache: an entry is a hit only under the handle's active id with an equal version", fl.Decl.Pos(), "nodeVersion == handle.Version on the entry of GetActiveID()", "the process-wide node cache can serve an entry whose version differs from the handle's (stale or uncommitted node)", nil)
-	}
+	readPathRules(c, r2)
 
 	r3 := c.Rule("R3", "the undo of a staged update deletes the INACTIVE id's blob and clears the reservation", 3)
 	{
@@ -230,5 +173,73 @@ func runC03(c *Ctx) {
 		}
 		c.Check(full == nil, r5, "phase1Commit does not register a first root before the commit point", nr.Decl.Pos(), "Registry.Add of a root not reachable from phase 1",
 			"phase 1 registers the handle of a store's first root (commitNewRootNodes -> Registry.Add) whose logical id is pre-published in StoreInfo.RootNodeID: a fresh transaction resolves it and reads the uncommitted items before the writer's phase 2", full)
+	}
+}
+
+// readPathRules (C03.R2, shared by C20.R1): how a node that is not in the transaction's own caches
+// is resolved.
+func readPathRules(c *Ctx, r2 string) {
+	w := c.W
+	const (
+		kInactive = "sop.Handle.GetInActiveID"
+		kActive   = "sop.Handle.GetActiveID"
+	)
+	{
+		f := w.Fn("common.nodeRepositoryBackend.get")
+		g := w.G(f)
+		c.Analysed(f)
+		info := f.Pkg.TypesInfo
+		defs := localDefs(f)
+		gets := g.callNodes(kRegGet)
+		ones := g.callNodes(kBlobGetOne)
+		c.Check(len(gets) == 1 && len(ones) == 1, r2, "get: one registry lookup and one blob fetch", f.Decl.Pos(), "Registry.Get / BlobStore.GetOne", fmt.Sprintf("found %d/%d", len(gets), len(ones)), nil)
+		if len(gets) == 1 && len(ones) == 1 {
+			hv := g.lhsVarOfCall(gets[0].n, gets[0].cs, 0)
+			offs := g.MustPrecede(calls(kRegGet), calls(kBlobGetOne, "cache.L1Cache.GetNode"))
+			c.Offences(g, offs, r2, "get: blob / L1 node fetch only after the registry lookup", f.Decl.Pos(), "Registry.Get precedes", "a node can be fetched without consulting the registry handle")
+			idArg := ones[0].cs.Call.Args[len(ones[0].cs.Call.Args)-1]
+			okID := hv != nil && w.mentionsDeep(f, defs, idArg, hv) && w.mentionsDeep(f, defs, idArg, nil, kActive) && !w.mentionsDeep(f, defs, idArg, nil, kInactive)
+			c.Check(okID, r2, "get: the blob fetched is the handle's ACTIVE id", ones[0].cs.Call.Pos(), "GetActiveID() of the registry result", "the blob id does not derive from GetActiveID() of the handle just read (a staged, uncommitted blob could be read)", nil)
+			for _, nc := range g.callNodes("cache.L1Cache.GetNode") {
+				okH := hv != nil && len(nc.cs.Call.Args) >= 2 && mentionsObj(info, nc.cs.Call.Args[1], hv)
+				c.Check(okH, r2, "get: the L1 lookup is keyed by the handle just read", nc.cs.Call.Pos(), "handle from Registry.Get", "L1 node lookup does not use the registry handle", nil)
+			}
+			// version stamped from the handle
+			sv := g.callNodes("btree.MetaDataType.SetVersion")
+			okV := len(sv) >= 1
+			for _, nc := range sv {
+				if hv == nil || !mentionsObj(info, nc.cs.Call.Args[0], hv) || !mentionsObj(info, nc.cs.Call.Args[0], w.Field("sop", "Handle", "Version")) {
+					okV = false
+				}
+			}
+			c.Check(okV, r2, "get: fetched nodes carry the handle's version", f.Decl.Pos(), "SetVersion(handle.Version)", "a fetched node is not stamped with the version of the handle it was resolved through (the commit-time version check compares garbage)", nil)
+		}
+		mru := g.callNodes("cache.L1Cache.GetNodeFromMRU")
+		pd := w.Field("common", "Transaction", "phaseDone")
+		guard := g.condNodes(func(e ast.Expr) bool {
+			be, ok := e.(*ast.BinaryExpr)
+			if !ok || be.Op != token.EQL || fieldOfSelector(info, be.X) != pd {
+				return false
+			}
+			lit, ok := ast.Unparen(be.Y).(*ast.BasicLit)
+			return ok && lit.Value == "0"
+		})
+		c.Check(len(mru) == 1 && len(guard) == 1, r2, "get: MRU shortcut and its phase guard present", f.Decl.Pos(), "one GetNodeFromMRU under `phaseDone == 0`", fmt.Sprintf("found %d shortcut(s), %d guard(s)", len(mru), len(guard)), nil)
+		if len(mru) == 1 && len(guard) == 1 {
+			offs := g.notOnlyVia(guard, 1, func(n *GNode) bool { return n == mru[0].n })
+			c.Offences(g, offs, r2, "get: process-wide MRU shortcut only before commit time", mru[0].cs.Call.Pos(), "reachable only with phaseDone == 0", "during commit a node can be served from the process-wide MRU without re-reading its handle from the registry")
+		}
+		// L1: version-matched hits only
+		fl := w.Fn("cache.L1Cache.getEntryForHandleLocked")
+		gl := w.G(fl)
+		c.Analysed(fl)
+		li := fl.Pkg.TypesInfo
+		ver := gl.condNodes(func(e ast.Expr) bool {
+			be, ok := e.(*ast.BinaryExpr)
+			return ok && be.Op == token.EQL && mentionsObj(li, be, w.Field("cache", "l1CacheEntry", "nodeVersion")) && mentionsObj(li, be, w.Field("sop", "Handle", "Version"))
+		})
+		hit := func(n *GNode) bool { return n.Ret != nil && len(n.Ret.Results) == 2 && isBoolLit(li, n.Ret.Results[1], true) }
+		okL := len(ver) == 1 && len(gl.Find(hit)) >= 1 && len(gl.notOnlyVia(ver, 1, hit)) == 0 && w.mentionsCall(fl, fl.Body, kActive)
+		c.Check(okL, r2, "L1 cache: an entry is a hit only under the handle's active id with an equal version", fl.Decl.Pos(), "nodeVersion == handle.Version on the entry of GetActiveID()", "the process-wide node cache can serve an entry whose version differs from the handle's (stale or uncommitted node)", nil)
 	}
 }
